@@ -143,6 +143,8 @@ type Cmd struct {
 	Kind  byte     `json:"kind"`
 	Query string   `json:"query,omitempty"`
 	Dump  *DumpReq `json:"dump,omitempty"`
+	// Rejected: the master answered this query with an ERR packet.
+	Rejected bool `json:"rejected,omitempty"`
 }
 
 // ConnLog is what the master observed on one connection.
@@ -470,6 +472,9 @@ func (m *Master) serve(c net.Conn, cl *ConnLog, scr *Script) {
 				if code == 0 {
 					code = 1193
 				}
+				cl.mu.Lock()
+				cl.Cmds[len(cl.Cmds)-1].Rejected = true
+				cl.mu.Unlock()
 				p.writePacket(ErrPacket(code, "HY000", "Unknown system variable 'binlog_checksum'"))
 			default:
 				p.writePacket(okPacket())
